@@ -831,6 +831,7 @@ def check(ctx, R):
     R.run("C19.k", rule_k, ctx)
     R.run("C19.l", rule_l, ctx)
     R.run("C19.m", rule_m, ctx)
+    R.run("C19.n", rule_n, ctx)
     if "h" in holder:
         R.run("C19.d", rule_d, ctx, holder["h"])
     return {}
@@ -897,3 +898,57 @@ def rule_m(R, ctx, rid="C19.m"):
             bad.append("the store does not follow the callback")
         R.ob(rid, outer, "meta-after-callback", not bad, "meta is read after the callback and stored into Event::meta(e)" if not bad else "; ".join(bad), stc.loc())
     R.floor(rid, "undo observers with a metadata hand-back", n, 2)
+
+
+def _S(p):
+    return "Result::unwrap(CStr::to_str(CStr::from_ptr(%s)))" % p
+
+
+def _B(p):
+    return "\\1::from_raw_branch(%s)" % p
+
+
+_ATTRS = ("has", "<*const T>::read(attrs)")
+_CONTENT = "<*const T>::read(content)"
+_W = ("has", "as_mut(txn)")
+_R = ("has", "as_ref(txn)")
+
+FFI_POSITIONAL = [
+    # wrapper, worker, {slot: the caller's own parameter}
+    ("yffi::ytext_insert", r"yrs::Text::insert$", {0: _B("txt"), 1: _W, 2: "index", 3: _S("value")}, None),
+    ("yffi::ytext_insert", r"yrs::Text::insert_with_attributes$", {0: _B("txt"), 1: _W, 2: "index", 3: _S("value"), 4: _ATTRS}, None),
+    ("yffi::ytext_remove_range", r"yrs::Text::remove_range$", {0: _B("txt"), 1: _W, 2: "index", 3: "length"}, None),
+    ("yffi::ytext_format", r"yrs::Text::format$", {0: _B("txt"), 1: _W, 2: "index", 3: "len", 4: _ATTRS}, None),
+    ("yffi::ytext_insert_embed", r"yrs::Text::insert_embed$", {0: _B("txt"), 1: _W, 2: "index", 3: _CONTENT}, None),
+    ("yffi::ytext_insert_embed", r"yrs::Text::insert_embed_with_attributes$", {0: _B("txt"), 1: _W, 2: "index", 3: _CONTENT, 4: _ATTRS}, None),
+    ("yffi::yxmltext_insert", r"yrs::Text::insert$", {0: _B("txt"), 1: _W, 2: "index", 3: _S("str")}, None),
+    ("yffi::yxmltext_insert", r"yrs::Text::insert_with_attributes$", {0: _B("txt"), 1: _W, 2: "index", 3: _S("str"), 4: _ATTRS}, None),
+    ("yffi::yxmltext_remove_range", r"yrs::Text::remove_range$", {0: _B("txt"), 1: _W, 2: "idx", 3: "len"}, None),
+    ("yffi::yxmltext_format", r"yrs::Text::format$", {0: _B("txt"), 1: _W, 2: "index", 3: "len", 4: _ATTRS}, None),
+    ("yffi::yxmltext_insert_embed", r"yrs::Text::insert_embed$", {0: _B("txt"), 1: _W, 2: "index", 3: _CONTENT}, None),
+    ("yffi::yxmltext_insert_embed", r"yrs::Text::insert_embed_with_attributes$", {0: _B("txt"), 1: _W, 2: "index", 3: _CONTENT, 4: _ATTRS}, None),
+    ("yffi::yarray_remove_range", r"yrs::Array::remove_range$", {0: _B("array"), 1: _W, 2: "index", 3: "len"}, None),
+    ("yffi::yarray_get", r"yrs::Array::get$", {0: _B("array"), 1: _R, 2: "index"}, None),
+    ("yffi::yarray_get_json", r"yrs::Array::get$", {0: _B("array"), 1: _R, 2: "index"}, None),
+    ("yffi::yxmlelem_remove_range", r"yrs::XmlFragment::remove_range$", {0: _B("xml"), 1: _W, 2: "index", 3: "len"}, None),
+    ("yffi::yxmlelem_get", r"yrs::XmlFragment::get$", {0: _B("xml"), 1: _R, 2: "index"}, None),
+    ("yffi::yxmlelem_insert_elem", r"yrs::XmlFragment::insert$", {0: _B("xml"), 1: _W, 2: "index", 3: ("has", "CStr::from_ptr(name)")}, None),
+    ("yffi::yxmlelem_insert_text", r"yrs::XmlFragment::insert$", {0: _B("xml"), 1: _W, 2: "index"}, None),
+    ("yffi::ymap_remove", r"yrs::Map::remove$", {0: _B("map"), 1: _W, 2: _S("key")}, None),
+    ("yffi::ymap_get", r"yrs::Map::get$", {0: _B("map"), 1: _R, 2: _S("key")}, None),
+    ("yffi::yxmlelem_get_attr", r"yrs::Xml::get_attribute$", {0: _B("xml"), 1: _R, 2: _S("attr_name")}, None),
+    ("yffi::yxmlelem_remove_attr", r"yrs::Xml::remove_attribute$", {0: _B("xml"), 1: _W, 2: _S("attr_name")}, None),
+    ("yffi::yxmltext_get_attr", r"yrs::Xml::get_attribute$", {0: _B("txt"), 1: _R, 2: _S("attr_name")}, None),
+    ("yffi::yxmltext_remove_attr", r"yrs::Xml::remove_attribute$", {0: _B("txt"), 1: _W, 2: _S("attr_name")}, None),
+]
+
+
+def rule_n(R, ctx, rid="C19.n"):
+    """The positional / keyed C wrappers hand the caller's own index, length and key on."""
+    from . import shared as _sh
+    R.rule(rid, "R-PROV (pre-emptive, after round 12) the positional and keyed wrappers of the C API — insert / remove_range / format / "
+                "insert_embed of YText and YXmlText, remove_range / get of YArray and of XML children, insert of XML children, get / remove "
+                "of YMap entries and of XML attributes — reach their yrs worker exactly once with the caller's own branch, transaction, "
+                "index, length, key and payload each in its own slot (canonical MIR values; named temporaries do not matter). C19.b says "
+                "which worker a wrapper reaches; this says with what")
+    _sh._delegations(R, ctx.yffi, rid, FFI_POSITIONAL, len(FFI_POSITIONAL))
